@@ -298,6 +298,9 @@ func LoadProgram() (*Program, error) {
 		for _, gv := range c.GhostVars {
 			emit(gv.Init, base, gv.Type, false)
 		}
+		for _, ex := range c.Exempts {
+			emit(ex.Clause, append(append(append([]string{}, base...), ghosts...), results...), "bool", false)
+		}
 		localParams := func(pos token.Pos) []string {
 			vars := scopeVars(info, fi.Decl, pos, p1.Types.Scope())
 			var out []string
@@ -446,6 +449,9 @@ func LoadProgram() (*Program, error) {
 	for _, gi := range cf.GlobalInvs {
 		emit(gi.Clause, nil, "bool", false)
 	}
+	for _, mv := range cf.MapVals {
+		emit(mv.Clause, []string{mv.Var + " " + mv.Type}, "bool", false)
+	}
 	if len(genErrs) > 0 {
 		return nil, fmt.Errorf("contract resolution errors:\n%s", strings.Join(genErrs, "\n"))
 	}
@@ -509,6 +515,9 @@ func LoadProgram() (*Program, error) {
 		for _, cl := range c.Goals {
 			bind(cl)
 		}
+		for _, ex := range c.Exempts {
+			bind(ex.Clause)
+		}
 		for _, gv := range c.GhostVars {
 			bind(gv.Init)
 		}
@@ -535,6 +544,9 @@ func LoadProgram() (*Program, error) {
 	}
 	for _, gi := range cf.GlobalInvs {
 		bind(gi.Clause)
+	}
+	for _, mv := range cf.MapVals {
+		bind(mv.Clause)
 	}
 	return prog, nil
 }
